@@ -27,6 +27,11 @@ pub fn load_golden(o: &Opts) -> Option<Golden> {
 /// What C19 demands of one `simc` run, given the library's reference outcome.
 /// Returns None when the run conforms, Some(class, detail) otherwise.
 pub fn judge_simc(reference: &Outcome, r: &ChildResult) -> Option<(&'static str, String)> {
+    // Stack exhaustion is a question of input size and thread stack size (the harness compiles on
+    // a 512 MiB stack, `simc` on the 8 MiB main thread); C19 says nothing about it: not judged.
+    if r.status.is_none() && String::from_utf8_lossy(&r.stderr).contains("overflowed its stack") {
+        return None;
+    }
     match reference {
         Outcome::Ok { bytes, .. } => {
             if r.status != Some(0) {
@@ -151,7 +156,7 @@ pub fn run(o: &Opts) -> i32 {
         }
     };
     let sz = sizes(&o.tier);
-    let cases = build(&CorpusSpec { seed: o.seed, generated: sz.generated, mutated: sz.mutated, layout: sz.layout }, &o.repo, &o.verif);
+    let cases = build(&CorpusSpec { seed: o.seed, generated: sz.generated, mutated: sz.mutated, layout: sz.layout, literal: sz.literal }, &o.repo, &o.verif);
     let thorough = o.tier == "thorough";
     let k_seeds = if thorough { 6 } else { 2 };
     let fault_runs_per_case = if thorough { 4 } else { 1 };
